@@ -81,6 +81,15 @@ def xor_oracle(ctx):
         rt = call(d.parse, b.value, **kw)
         if not rt.ok or rt.value != data:
             return Failure("C15/xor/roundtrip", "parse(build(x)) != x for key %s data %s: %r" % (short(key, 60), short(data, 60), rt))
+        # the key always starts cycling at the first byte of the region, wherever the region sits in the stream
+        for off in (1, 3, len(key) + 1 if isinstance(key, bytes) else 2):
+            from construct import Bytes
+            pad2 = key if form == "const" else (this._params.k if form == "this" else (lambda c: c._params.k))
+            outer = Struct("pre" / Bytes(off), "x" / ProcessXor(pad2, GreedyBytes))
+            po = call(outer.parse, b"\xaa" * off + data, **kw)
+            bo = call(outer.build, dict(pre=b"\xaa" * off, x=data), **kw)
+            if not po.ok or po.value.x != want or not bo.ok or bo.value != b"\xaa" * off + want:
+                return Failure("C15/xor/offset", "ProcessXor(%s) behind %d bytes: parse -> %r, build -> %r, definition %s" % (short(key, 60), off, po, bo, short(want, 60)))
         if inner is not None:
             d2 = ProcessXor(pad, inner)
             p2 = call(d2.parse, data, **kw)
